@@ -9,6 +9,7 @@ on each of the four surfaces (Python API, request API, agent action, scenario fi
 import PrimaiteModel.Model.AclParse
 import PrimaiteModel.Model.AclObj
 import PrimaiteModel.Gen.AclParse
+import PrimaiteModel.Gen.AclState
 namespace Primaite.Acl.Parse
 open Primaite.Gen.AclParse
 
@@ -136,6 +137,25 @@ theorem C07_protocol_valid (v : PyVal) (s : String) (h : protoNameOf tables v = 
   | int i => simp [protoNameOf] at h
   | none => simp [protoNameOf] at h
   | other => simp [protoNameOf] at h
+
+/-- what follows the request name in a formed request -/
+def argsAfterName (name : String) : List String → List String
+  | [] => []
+  | x :: rest => if x = name then rest else argsAfterName name rest
+
+/-- TIE between two places of the source: the sentinel the request handler tests at `request[i]` (`None if request[i] == S`)
+is the literal the action schema admits for the field that `form_request` puts at position `i` — `ALL` for protocol / addresses /
+ports, `NONE` for the wildcard masks, whatever the spelling, for both add-rule actions; and every field of the schema that
+admits a literal is consumed by such a test. -/
+theorem C07_gen_sentinels_agree :
+    (∀ act, act ∈ ["RouterACLAddRuleAction", "FirewallACLAddRuleAction"] →
+      ∀ x, x ∈ Primaite.Gen.AclState.requestLayout → x.2.2.1 ≠ "-" →
+        ((((Primaite.Gen.AclState.actionRequests.lookup act).map (argsAfterName "'add_rule'")).bind (·[x.2.1]?)).bind
+          (fun f => List.lookup f actionSentinels)) = some x.2.2.1) ∧
+    (∀ act, act ∈ ["RouterACLAddRuleAction", "FirewallACLAddRuleAction"] →
+      ∀ fs, fs ∈ actionSentinels →
+        ∃ x, x ∈ Primaite.Gen.AclState.requestLayout ∧ x.2.2.1 = fs.2 ∧
+          (((Primaite.Gen.AclState.actionRequests.lookup act).map (argsAfterName "'add_rule'")).bind (·[x.2.1]?)) = some fs.1) := by decide
 
 /-- every accepted protocol spelling names one of the model's four protocols -/
 theorem C07_protocol_total (v : PyVal) (s : String) (h : protoNameOf tables v = some s) : (protoOfName s).isSome = true := by
